@@ -18,7 +18,7 @@ import json
 
 from mc import values as V
 from mc.ref import fields as R
-from mc.values import F, Y, T, D, OBJ
+from mc.values import F, Y, T, D, OBJ, BA
 
 WITNESS = {"k": "Int", "o": {"default": 1}}
 
@@ -46,7 +46,7 @@ def catalogue():
                 ["10.0.0.1/8", "10.0.0.0/25", "0.0.0.0/0", 8])
     c["host"] = ({"k": "Host", "o": {"default": "localhost"}}, ["example.com", "10.0.0.1"], ["a b", 5])
     c["url"] = ({"k": "Url"}, ["http://x", "a:b"], ["nourl", "://x", 1])
-    c["bytes"] = ({"k": "Bytes"}, [Y(b"ab"), "cd"], [5, ["ab"]])
+    c["bytes"] = ({"k": "Bytes"}, [Y(b"ab"), "cd"], [5, ["ab"], BA(b"ab")])
     c["file"] = ({"k": "File", "o": {"exists": False}}, ["no-such-file.txt", "other-missing"], [".", 5])
     c["challenge"] = ({"k": "Challenge", "o": {"hash_algorithm": "md5"}}, ["pw", "pw2"], [5, ["pw"]])
     c["loglevel"] = ({"k": "LogLevel", "o": {"default": "info"}}, ["debug", " WARNING "], ["trace", 3])
@@ -67,15 +67,15 @@ def catalogue():
     c["int-cd"] = ({"k": "Int", "o": {"default": 3, "default_callable": True}}, [1, "2"], ["x"])
     c["challenge-dflt"] = ({"k": "Challenge", "o": {"hash_algorithm": "sha1", "default": "dfl-secret"}}, ["pw", "pw2"], [5])
     c["secure-aes"] = ({"k": "Secure", "o": {"method": "aes"}}, ["s3cret-ZQ", "p\u00e4ss w\u00f6rd"], [])
-    c["secure-xor"] = ({"k": "Secure", "o": {"method": "xor", "default": "dflt-secret"}}, ["s3cret-ZQ", ""], [])
+    c["secure-xor"] = ({"k": "Secure", "o": {"method": "xor", "default": "dflt-secret"}}, ["s3cret-ZQ", "", "0123456789abcdefghijABCDEFGHIJ!@#$%^&*()-longer-than-the-key"], [])
     c["secure-best"] = ({"k": "Secure"}, ["s3cret-ZQ", "x" * 40], [])
     c["bytes-hex"] = ({"k": "Bytes", "o": {"encoding": "hex", "default": Y(b"\x00\xff")}}, [Y(b"ab"), Y(bytes(range(7)))], [5])
     c["float-precise"] = ({"k": "Float", "o": {"default": F(0.1 + 0.2)}}, [F(1234567.891), F(1e-7), F(123456789012345680.0)], ["x"])
     c["int-big"] = ({"k": "Int"}, [2 ** 40, -(2 ** 62), 0], ["x"])
     c["str-tricky"] = ({"k": "Str", "o": {"default": " padded "}}, ["true", "1.0", "", "<&>\"'\n\ttab", "\u00e9\U0001F600", "null", "]]>", " "], [5])
-    c["list-bytes"] = ({"k": "List", "item": {"k": "Bytes"}}, [[Y(b"ab"), Y(b"\xff")], []], [[5]])
+    c["list-bytes"] = ({"k": "List", "item": {"k": "Bytes"}}, [[Y(b"ab"), Y(b"\xff")], []], [[5], [BA(b"ab")]])
     c["list-challenge"] = ({"k": "List", "item": {"k": "Challenge", "o": {"hash_algorithm": "sha1"}}}, [["pw1", "pw2"]], [[5]])
-    c["list-secure"] = ({"k": "List", "item": {"k": "Secure", "o": {"method": "xor"}}}, [["sec-1", "sec-2"]], [])
+    c["list-secure"] = ({"k": "List", "item": {"k": "Secure", "o": {"method": "xor"}}}, [["sec-1", "sec-2"], ["a-secret-that-is-longer-than-the-thirty-two-byte-key"]], [])
     c["dict-bytes"] = ({"k": "Dict", "key": {"k": "Str"}, "val": {"k": "Bytes", "o": {"encoding": "hex"}}}, [D(("k", Y(b"ab")))], [D(("k", 5))])
     c["dict-secure"] = ({"k": "Dict", "key": {"k": "Str"}, "val": {"k": "Secure", "o": {"method": "aes"}}}, [D(("k", "sec-d"))], [])
     c["dict-challenge"] = ({"k": "Dict", "key": {"k": "Str"}, "val": {"k": "Challenge"}}, [D(("k", "pw-d"))], [D(("k", 5))])
